@@ -929,84 +929,81 @@ func (a PopScopeTransferToDataStackInstr) Execute(env *Zlisp) error {
 type PrepareCallInstr struct {
 	sym   *SexpSymbol
 	nargs int
+
+	// skip is the number of instructions that follow this one to
+	// make up the jump back to the start of the function (the scope
+	// removals and the goto). They are passed over when the call
+	// turns out not to be a call of the running function.
+	skip int
 }
 
 func (c PrepareCallInstr) InstrString() string {
 	return fmt.Sprintf("pre-call %s %d", c.sym.name, c.nargs)
 }
 
+// Execute prepares the jump that stands for a self call in tail
+// position. The generator chose the jump because the callee is
+// spelled like the function being compiled; whether that name is
+// bound to the running function is only known now. When it is
+// not -- the name was re-bound by def, defn or set, the function
+// runs under another name, the name is a builtin -- the call is
+// made as the ordinary call it would be without the optimisation,
+// and the jump is passed over.
 func (c PrepareCallInstr) Execute(env *Zlisp) error {
-	if err := c.execute(env); err != nil {
+	self, err := c.execute(env)
+	if err != nil {
 		return err
+	}
+	if !self {
+		env.pc += c.skip
+		return CallInstr{c.sym, c.nargs}.Execute(env)
 	}
 	env.pc++
 	return nil
 }
 
-func (c PrepareCallInstr) execute(env *Zlisp) error {
+// execute reports whether c.sym is bound to the running function,
+// and if so gets the arguments on the stack ready for its body, as
+// CallFunction does for an ordinary call.
+func (c PrepareCallInstr) execute(env *Zlisp) (self bool, err error) {
 	_, ok := env.builtins[c.sym.number]
 	if ok {
-		return nil
+		return false, nil
 	}
-	var funcobj, indirectFuncName Sexp
-	var err error
+	var funcobj Sexp
 
 	funcobj, err, _ = env.LexicalLookupSymbol(c.sym, nil)
-
 	if err != nil {
-		return err
+		return false, err
 	}
-	switch f := funcobj.(type) {
-	case *SexpSymbol:
+	if sym, isSym := funcobj.(*SexpSymbol); isSym {
+		// a symbol that refers to a function: CallInstr resolves it
+		name := sym.name
 		if c.sym.isDot {
-
-			dotSymRef, dotLookupErr := dotGetSetHelper(env, c.sym.name, nil)
-			if dotLookupErr != nil {
-				return dotLookupErr
-			}
-			indirectFuncName = dotSymRef
-		} else {
-			indirectFuncName, err = dotGetSetHelper(env, f.name, nil)
-			if err != nil {
-				return fmt.Errorf("'%s' refers to symbol '%s', but '%s' could not be resolved: '%s'.",
-					c.sym.name, f.name, f.name, err)
-			}
+			name = c.sym.name
 		}
-
-		switch g := indirectFuncName.(type) {
-		case *SexpFunction:
-			if !g.user {
-				nargs := c.nargs
-				if err := env.prepareLazyCallArgs(g, &nargs); err != nil {
-					return err
-				}
-				if g.varargs {
-					return env.wrangleOptargs(g.nargs, nargs)
-				}
-				if nargs != g.nargs {
-					return fmt.Errorf("%s expected %d arguments, got %d",
-						g.name, g.nargs, nargs)
-				}
-			}
-			return nil
-		}
-
-	case *SexpFunction:
-		if !f.user {
-			nargs := c.nargs
-			if err := env.prepareLazyCallArgs(f, &nargs); err != nil {
-				return err
-			}
-			if f.varargs {
-				return env.wrangleOptargs(f.nargs, nargs)
-			}
-			// a tail call jumps past CallFunction, which is where an
-			// ordinary call has its argument count checked.
-			if nargs != f.nargs {
-				return fmt.Errorf("%s expected %d arguments, got %d",
-					f.name, f.nargs, nargs)
-			}
+		funcobj, err = dotGetSetHelper(env, name, nil)
+		if err != nil {
+			return false, nil // CallInstr reports it
 		}
 	}
-	return nil
+	f, isFun := funcobj.(*SexpFunction)
+	if !isFun || f.user || f != env.curfunc {
+		return false, nil
+	}
+
+	nargs := c.nargs
+	if err := env.prepareLazyCallArgs(f, &nargs); err != nil {
+		return false, err
+	}
+	if f.varargs {
+		return true, env.wrangleOptargs(f.nargs, nargs)
+	}
+	// a tail call jumps past CallFunction, which is where an
+	// ordinary call has its argument count checked.
+	if nargs != f.nargs {
+		return false, fmt.Errorf("%s expected %d arguments, got %d",
+			f.name, f.nargs, nargs)
+	}
+	return true, nil
 }
